@@ -26,7 +26,7 @@ func init() {
 				Procs:    16,
 				Rule: "large sets (0..3000 elements per side in every size relation, 0..1000 shared elements incl. 31..34, 63..66, 127..129, 255..257) against Go maps for all binary operations, long variadic lists, Intersect, Clone, Slice, Append; exhaustive over a universe of 5 elements: every (receiver, argument) pair of the 34 operands {nil, empty non-nil, 32 subsets incl. a second empty} for Intersects/IsSubset/Equals/AddAll/RemoveAll; every receiver x every argument list of length <= 3 (<= 4 thorough) with repetitions for HasAll/HasAny/Add/Remove/New; every 0..3-operand combination and random 4..12-operand combinations for Intersect; Append into prefixes with every amount of spare capacity from 0 to len+6; Clone/Keys/Values/Range/NewSize/Slice/Append/Pop/Clear/IsEmpty/Len/Has on every operand; results checked for value, non-nilness and non-aliasing (mutating the result must not change an argument and vice versa). " +
 					"Histories of Add/AddAll/Remove/RemoveAll/Pop/Clear over two sets (the second used as argument of the first), starting from nil or non-nil, with membership and Len of BOTH sets after every step. distinct = enumerated operand tuples, histories by hash; non-trivial = at least one operand is non-empty",
-				Required:     []string{"binary_predicate_pairs", "variadic_cases", "variadic_with_duplicates", "intersect_cases", "aliasing_checks", "pop_checks", "history_steps", "nil_receiver_cases", "intersect_many_operands", "append_spare_capacity_cases", "second_handle_checks", "large_set_cases"},
+				Required:     []string{"binary_predicate_pairs", "variadic_cases", "variadic_with_duplicates", "intersect_cases", "aliasing_checks", "pop_checks", "history_steps", "nil_receiver_cases", "intersect_many_operands", "append_spare_capacity_cases", "second_handle_checks", "large_set_cases", "length_sweep_cases"},
 				Exhaustive:   true,
 				Assumptions:  []string{"reference: 5-bit masks"},
 				CoverPkgs:    []string{"github.com/creachadair/mds/mapset"},
@@ -709,6 +709,61 @@ func runC18(c *fw.Ctx) {
 		}
 		h.U64(r.Uint64())
 		c.Seen(h.Sum())
+	}
+	// every length 0..300 (and a few larger) of what is handed to Range, New, Add,
+	// Remove, HasAll and of what Slice/Append return: duplicates included
+	if c.Begin(1<<22 + 900000 + c.Block) {
+		lens := []int{511, 512, 513, 999, 1000, 1001, 1023, 1024, 1025, 4096, 10000}
+		for L := 0; L <= 300; L++ {
+			lens = append(lens, L)
+		}
+		for li, L := range lens {
+			if li%c.NBlocks != c.Block {
+				continue
+			}
+			for _, distinct := range []int{L, max(1, L/3), 3} {
+				items := make([]int, L)
+				want := map[int]bool{}
+				for i := range items {
+					items[i] = (i * 7) % max(1, distinct)
+					want[items[i]] = true
+				}
+				data := map[string]any{"values_yielded": L, "distinct_values": len(want)}
+				same := func(s mapset.Set[int]) bool {
+					if s == nil || len(s) != len(want) {
+						return false
+					}
+					for k := range want {
+						if !s.Has(k) {
+							return false
+						}
+					}
+					return true
+				}
+				if rg := mapset.Range(slices.Values(items)); !same(rg) {
+					c.Fail(data, "Range over %d values: set of %d elements (nil=%v), want %d", L, len(rg), rg == nil, len(want))
+					return
+				}
+				n := mapset.New(items...)
+				var viaAdd mapset.Set[int]
+				viaAdd.Add(items...)
+				if !same(n) || (L > 0 && !same(viaAdd)) || !n.HasAll(items...) || (L > 0 && !n.HasAny(items...)) {
+					c.Fail(data, "New/Add/HasAll with %d items: sets of %d / %d elements, want %d", L, len(n), len(viaAdd), len(want))
+					return
+				}
+				if sl, ap := n.Slice(), n.Append(make([]int, 1, 3)); len(sl) != len(want) || len(ap) != len(want)+1 {
+					c.Fail(data, "Slice/Append of a set of %d elements have %d / %d elements", len(want), len(sl), len(ap)-1)
+					return
+				}
+				n.Remove(items...)
+				if len(n) != 0 {
+					c.Fail(data, "Remove of all %d items leaves %d elements", L, len(n))
+					return
+				}
+			}
+			c.Step()
+		}
+		c.Add("length_sweep_cases", 1)
 	}
 	// large sets in every size relation and with every amount of overlap
 	for k := 0; k < c.Pick(400, 6000); k++ {
